@@ -22,6 +22,9 @@ Lens_3x3   == <<1..3, 1..3, 0..3>>
 Lens_q     == <<{2}, {0, 1, 2}>>
 Lens_q2    == <<{2}, {1, 3}>>
 Lens_ab    == <<{2}, {1, 2}>>
+Lens_f2    == <<{2}>>
+Lens_f3    == <<{3}>>
+Kinds_c1   == <<C1>>
 Lens_f22   == <<{2}, {2}>>
 Lens_f21   == <<{2}, {1}>>
 Lens_k     == <<{0, 2}, {0, 1}>>
